@@ -684,6 +684,7 @@ def run(run, model):
         run.skipped.append({"rule_fn": "r15_1", "reason": str(e)})
     run.rule("R14.11", "check and build of the same sources emit the same interface whatever the spelling of the input paths (shared with C13 R13.7)")
     run.try_rule(c13.file_identity_order, model, "R14.11")
+    run.try_rule(c13.file_identity_sort_key, model, "R14.11")
     run.try_rule(r14_1, model)
     run.try_rule(canonical_link_order, model)
     run.try_rule(r14_12, model)
